@@ -287,9 +287,9 @@ static long purge_calls_since(long mark) {
   for (long k = mark; k < vf_os.ncalls && k < VF_MAX_CALLS; k++) { const vf_call_t* c = &vf_os.calls[k]; if (c->kind == VF_C_MADVISE || (c->kind == VF_C_MPROTECT && c->arg == PROT_NONE)) n++; }
   return n;
 }
-enum { U_PAGE = 0, U_SEGMENT = 1, U_ALL = 2, U_MULTI = 3, NUNUSED = 4 };
+enum { U_PAGE = 0, U_SEGMENT = 1, U_ALL = 2, U_MULTI = 3, U_CHURN = 4, NUNUSED = 5 };
 enum { A_FREE_OTHER_PAGE = 0, A_ALLOC_PAGE = 1, A_HUGE_ALLOC_FREE = 2, A_COLLECT = 3, A_FASTPATH = 4, NACT = 5 };
-static const char* u_names[] = { "page-in-live-segment", "whole-segment", "everything", "several-pages-of-one-segment" };
+static const char* u_names[] = { "page-in-live-segment", "whole-segment", "everything", "several-pages-of-one-segment", "several-pages-one-of-them-reused-repeatedly" };
 static const char* a_names[] = { "free-other-page", "alloc-page-in-segment", "alloc+free-17MiB", "collect(false)", "small-fast-path-only" };
 static void purge_case(long k) {
   int U = (int)(k / NACT), A = (int)(k % NACT);
@@ -308,6 +308,8 @@ static void purge_case(long k) {
   /* U_MULTI: nine more 1 MiB pages in the same segment; four non-adjacent ones (spread over several 64-slice fields of the
      segment's purge mask) become unused together */
   uint8_t* more[9]; uintptr_t mlo[4], mhi[4]; int nm = 0;
+  long churn = 0, ext = mi_option_get(mi_option_purge_extend_delay);
+  if (U == U_CHURN) { if (d > ext && d > 0) { churn = (d + 1000) / (d - ext) + 2; U = U_MULTI; } else { VF_INC(nontrivial); return; } }   /* (with delay <= extend delay re-use cannot postpone anything) */
   if (U == U_MULTI) {
     for (int i = 0; i < 9; i++) { more[i] = (uint8_t*)mi_malloc(1 * MiB); if (!more[i]) { VIOL("null-result", "set-up"); return; } memset(more[i], 5 + i, MiB);
       if (_mi_ptr_segment(more[i]) != _mi_ptr_segment(pa)) { vf_sh->infra_error = 1; fprintf(stderr, "set-up: pages not in one segment\n"); return; } }
@@ -322,6 +324,9 @@ static void purge_case(long k) {
     uint8_t* f[4] = { pb, more[0], more[3], more[6] };     /* pages #1, #3, #6, #9 of the segment */
     for (int i = 0; i < 4; i++) { mlo[i] = (uintptr_t)f[i]; mhi[i] = mlo[i] + 1 * MiB; mi_free(f[i]); } nm = 4;
     pb = NULL; lo = mlo[0]; hi = mhi[0];
+    /* U_CHURN: before any time passes one of the unused spans is taken and released again `churn` times: each re-use re-arms
+       the segment's expiry to now + delay (and each release may extend it by the extend delay), it must not accumulate */
+    for (long c = 0; c < churn; c++) { void* t = mi_malloc(1 * MiB); if (!t) { VIOL("null-result", "churn"); return; } mi_free(t); }
   }
   else { lo = (uintptr_t)pa; hi = (uintptr_t)pc + 1 * MiB; mi_free(pa); mi_free(pb); mi_free(pc); pa = pb = pc = NULL; for (int i = 0; i < 8; i++) { mi_free(small[i]); small[i] = NULL; } }
   VF_INC(transitions); VF_INC(checks);
@@ -355,7 +360,7 @@ static void purge_case(long k) {
   /* (2) after the delay has passed, ordinary activity returns it (no forced collect) */
   int64_t T1 = vf_os.clock_ms;
   if (U == U_ALL) { expiry = d * mult; vf_os.clock_ms = T1 + expiry + 1000; T0 = T1; }
-  else vf_os.clock_ms = T0 + expiry + 1000;
+  else vf_os.clock_ms = T0 + expiry + 1000 + churn * (ext > 0 ? ext : 0);
   int expect = 0;
   switch (A) {
     /* page in a live segment: the segment's purge point is reached when another page of it is freed. (Allocating in
